@@ -25,6 +25,8 @@ func init() {
 			"NOT decided: byte-for-byte equality of consumed and produced streams as a run-time value statement (it follows from fifo-shape + locked for the single-producer/single-consumer roles, which is the argument, not a measurement).",
 		Assumptions: []string{"sync.RWMutex and channel semantics of the Go memory model", "the queue is used only through its methods (fields are unexported)"},
 		Mutants: []Mutant{
+			{ID: "C20-readall-exited-gate", Desc: "ReadAll refuses to drain once the reader has exited", Rule: "C20/readall-drains",
+				Edits: []Edit{{File: "channel/read.go", Old: "\tdefault:\n\t}\n\n\tb := c.Q.DequeueAll()", New: "\tdefault:\n\t}\n\n\tif c.readLoopExited {\n\t\treturn nil, util.ErrConnectionError\n\t}\n\n\tb := c.Q.DequeueAll()"}}},
 			{ID: "C20-value-receiver", Desc: "Queue.GetDepth takes the queue by value", Rule: "C20/pointer-receivers",
 				Edits: []Edit{{File: "util/queue.go", Old: "func (q *Queue) GetDepth() int {", New: "func (q Queue) GetDepth() int {"}}},
 			{ID: "C20-dequeue-before-error-poll", Desc: "Channel.Read dequeues before polling the error channel and drops the chunk when an error is pending", Rule: "C20/dequeued-returned",
